@@ -54,6 +54,11 @@ CHECKS = {
    text="roundtrip (for every key-sorted map with distinct well-formed names, int-range integers and LF-free, blank-free strings — ':' , inner CR and non-ASCII allowed — unmarshal (marshal m) = m), atoi_itoa, malformed_rejected / too_few_fields / unknown_type / bad_integer (never skipped), lines_wellformed, at_most_one_line, table_tags_distinct and table_tags_ok (decided on the regenerated table), builder_roundtrip, forced_settings_exist (Props/C19.lean). Tie: rdp.Parser().Marshal/Unmarshal, rdp.NewBuilder().String() and NewBuilderFromFile compared with the model on generated maps, arbitrary bytes, malformed files, random field assignments and templates; round trip and one-line-per-setting are also evaluated on the implementation.",
    design="6/C19",
    note="koanf/mapstructure weak typing is modelled only for the value shapes generated (integers for int/bool fields, strings/integers for string fields, decimal/boolean strings). Lines above bufio's 64 KiB limit are outside the quantifier (≤ 4 KiB)."),
+ "C15": dict(
+   technique="Lean 4 theorems about the user-token decision procedure and the token-info status map + differential correspondence of the real GenerateUserToken/UserInfo/TokenInfo against an independent JWE dissector (std AES-CBC, HMAC, flate, JSON)",
+   text="ok_only_if (claims only if the token decrypts under the configured key, the inner HS256 signature verifies when a signing key is configured, issuer rdpgw, unexpired), mode_separation (both directions), subject, expired_refused, status_map (405/400/403/200, no claims unless 200) in Props/C15.lean. Tie: tokens minted in both modes, every single-character substitution of each of the five segments, other keys/algorithms/issuers, expiry around the leeway, plain JWS, cross-mode tokens and junk are dissected independently (RFC 7518 §5.2 implemented with the standard library) and the real UserInfo verdict and subject compared with UserToken.verify; web.TokenInfo compared with tokenInfo; confidentiality of the user name is a test.",
+   design="6/C15",
+   note="AES-CBC/HMAC are assumed ideal; JWE parsing is go-jose's (stricter outcomes on exotic spellings are counted, safe side). The unused second JWE segment is ignored by the library for alg=dir: a token that decodes to the same authenticated object is the same token."),
 }
 
 def entry(pid, c):
